@@ -363,14 +363,13 @@ class Interp:
         return Sym(term, ty)
 
     def sym_cell(self, st, term, ty):
-        c = st.symcells.get(term)
+        key = (term, ty)
+        c = st.symcells.get(key)
         if c is None:
             c = Cell()
-            st.symcells[term] = c
+            st.symcells[key] = c
             if is_scalar_ty(ty):
                 c.v = T.typed(term, ty)
-            elif is_ref_ty(ty):
-                c.v = self.sym_value(st, term, ty)
             else:
                 c.v = self.sym_value(st, term, ty)
         return c
@@ -886,6 +885,7 @@ class Interp:
         if isinstance(v, Sym):
             if v.term in st.variants:
                 return I(st.variants[v.term])
+            T.TYPES.setdefault(('#objty', v.term), v.ty)
             return T.typed(('discr', v.term), 'isize')
         raise Unanalysable('discriminant of %r' % (v,))
 
@@ -1075,9 +1075,9 @@ class Interp:
             work.append(s2)
 
     def sym_ty_of(self, st, term):
-        c = st.symcells.get(term)
-        if c is not None and isinstance(c.v, Sym):
-            return c.v.ty
+        for (t, ty), c in st.symcells.items():
+            if t == term and isinstance(c.v, Sym):
+                return c.v.ty
         return T.TYPES.get(('#objty', term))
 
     # ---- loops
